@@ -5,20 +5,78 @@ use serde_json::{Map, Value};
 /// A JSON object.
 pub type JsonObject = Map<String, Value>;
 
-/// Permisive deserialization for optional 256-bit integer types.
+/// Permissive deserialization for unsigned 256-bit integers.
+///
+/// This accepts the same values as `ethnum::serde::permissive`, except that
+/// negative numbers are rejected instead of wrapping around to `2^256 - |n|`.
+pub mod uint {
+    use ethnum::{serde::permissive, U256};
+    use serde::de::{self, Deserializer, IntoDeserializer, Visitor};
+    use std::fmt::{self, Formatter};
+
+    struct UintVisitor;
+
+    impl Visitor<'_> for UintVisitor {
+        type Value = U256;
+
+        fn expecting(&self, f: &mut Formatter) -> fmt::Result {
+            f.write_str("non-negative number, decimal string or '0x-' prefixed hexadecimal string")
+        }
+
+        fn visit_i64<E>(self, v: i64) -> Result<Self::Value, E>
+        where
+            E: de::Error,
+        {
+            if v < 0 {
+                return Err(E::custom("negative value for unsigned integer"));
+            }
+            permissive::deserialize(IntoDeserializer::<E>::into_deserializer(v))
+        }
+
+        fn visit_u64<E>(self, v: u64) -> Result<Self::Value, E>
+        where
+            E: de::Error,
+        {
+            permissive::deserialize(IntoDeserializer::<E>::into_deserializer(v))
+        }
+
+        fn visit_f64<E>(self, v: f64) -> Result<Self::Value, E>
+        where
+            E: de::Error,
+        {
+            if v < 0. {
+                return Err(E::custom("negative value for unsigned integer"));
+            }
+            permissive::deserialize(IntoDeserializer::<E>::into_deserializer(v))
+        }
+
+        fn visit_str<E>(self, v: &str) -> Result<Self::Value, E>
+        where
+            E: de::Error,
+        {
+            permissive::deserialize(IntoDeserializer::<E>::into_deserializer(v))
+        }
+    }
+
+    pub fn deserialize<'de, D>(deserializer: D) -> Result<U256, D::Error>
+    where
+        D: Deserializer<'de>,
+    {
+        deserializer.deserialize_any(UintVisitor)
+    }
+}
+
+/// Permisive deserialization for optional unsigned 256-bit integers.
 pub mod numopt {
-    use ethnum::serde::permissive::Permissive;
+    use ethnum::U256;
     use serde::{Deserialize, Deserializer};
 
     #[derive(Deserialize)]
     #[serde(transparent)]
-    struct Helper<T>(#[serde(with = "ethnum::serde::permissive")] T)
-    where
-        T: Permissive;
+    struct Helper(#[serde(with = "super::uint")] U256);
 
-    pub fn deserialize<'de, T, D>(deserializer: D) -> Result<Option<T>, D::Error>
+    pub fn deserialize<'de, D>(deserializer: D) -> Result<Option<U256>, D::Error>
     where
-        T: Permissive,
         D: Deserializer<'de>,
     {
         let option = Option::deserialize(deserializer)?;
